@@ -18,6 +18,7 @@ import (
 	"github.com/zishang520/engine.io/v2/log"
 	"github.com/zishang520/engine.io/v2/types"
 	"github.com/zishang520/engine.io/v2/utils"
+	"github.com/zishang520/engine.io/v2/verifhook"
 )
 
 var polling_log = log.NewLog("engine:polling")
@@ -219,6 +220,9 @@ func (p *polling) Send(packets []*packet.Packet) {
 	go p.send(packets)
 }
 func (p *polling) send(packets []*packet.Packet) {
+	if verifhook.Enabled {
+		verifhook.Point("polling.send.start", p, packets)
+	}
 	p.mu.Lock()
 	defer p.mu.Unlock()
 
